@@ -391,7 +391,8 @@ def start_objects(rng, theme):
     elif theme == "mixed":
         new += [["new", q()], ["new", "Case"], ["new", rng.choice(["fn.Sum", "an.Sum"])], ["new", "CreateQueryBuilder"]]
     elif theme == "twin":
-        new = [["new", "mutable:" + q()]] + new + [["new", q()]]
+        from harness.c01.world import ENTRY_POINTS
+        new = [["new", "mutable:%s@%s" % (q(), rng.choice(ENTRY_POINTS))]] + new + [["new", q()]]
     return new
 
 
